@@ -100,3 +100,39 @@ package openapiv3
 //@   ensures* appended: result == nil && len(out) == len(params) + 1 && out[len(out) - 1].Name == elem && out[len(out) - 1].In == "cookie"
 //@   ensures kept: forall k int :: 0 <= k && k < len(params) ==> out[k] == old(params[k])
 //@   modifies all
+
+// ---- generated output does not depend on map iteration order (C09) --------------------------------
+// Every function of this package that ranges over a map is either proved independent of the iteration order
+// (commutativity of the loop body, or keys collected and sorted before use) or listed here as NOT proved;
+// a range over a map appearing anywhere else in the package is reported.
+//@ maprange-census property C09: buildFileServerOperation=1 buildOperation$1=1 responseFromExpr=1 toStringMap=1
+//@ func buildFileServerOperation$1
+//@   opt maprange deterministic
+//@   opt inline none
+//@   opt loopframes none
+//@   property C09
+//@   modifies all
+//@ func buildOperation
+//@   opt maprange deterministic
+//@   opt inline none
+//@   opt loopframes none
+//@   property C09
+//@   modifies all
+//@ func buildOperation$2
+//@   opt maprange deterministic
+//@   opt inline none
+//@   opt loopframes none
+//@   property C09
+//@   modifies all
+//@ func buildPaths
+//@   opt maprange deterministic
+//@   opt inline none
+//@   opt loopframes none
+//@   property C09
+//@   modifies all
+//@ func buildTags
+//@   opt maprange deterministic
+//@   opt inline none
+//@   opt loopframes none
+//@   property C09
+//@   modifies all
